@@ -57,24 +57,27 @@ def gen_tree(rng, depth, big=False):
     return [kind, gen_tree(rng, depth - 1, big), gen_tree(rng, depth - 1, big)]
 
 
-def gen_workload(rng, r0, nsv, big):
+def gen_workload(rng, r0, nsv, big, heavy=False):
+    """heavy: long service times, long streams abandoned after the first result, short deadlines — so that
+    `__exit__` begins while many requests are still in the pipeline"""
     callers = []
     r = r0
+    durs = [0, 1, 2, 4] if not heavy else [4, 8, 16]
     for _ in range(rng.choice([1, 2, 2, 3] if not big else [2, 3, 4])):
-        if rng.random() < 0.4:
-            n = rng.choice([1, 2, 3, 5] if not big else [2, 4, 7])
+        if rng.random() < (0.4 if not heavy else 0.7):
+            n = rng.choice(([1, 2, 3, 5] if not big else [2, 4, 7]) if not heavy else [3, 5, 8])
             items = []
             for _ in range(n):
-                items.append(dict(r=r, dur=rng.choice([0, 1, 2, 4]), failsv=rng.randrange(nsv) if rng.random() < 0.15 else -1))
+                items.append(dict(r=r, dur=rng.choice(durs), failsv=rng.randrange(nsv) if rng.random() < 0.15 else -1))
                 r += 1
-            callers.append(dict(kind='stream', items=items, rexc=rng.random() < 0.6,
-                                stop_after=rng.randrange(1, n + 1) if rng.random() < 0.6 else None))
+            stop = rng.randrange(1, n + 1) if rng.random() < 0.6 else None
+            callers.append(dict(kind='stream', items=items, rexc=rng.random() < 0.6, stop_after=1 if heavy else stop))
         else:
             reqs = []
             for _ in range(rng.choice([1, 1, 2])):
-                reqs.append(dict(r=r, dur=rng.choice([0, 1, 2, 4, 8]),
+                reqs.append(dict(r=r, dur=rng.choice(durs + [8]),
                                  failsv=rng.randrange(nsv) if rng.random() < 0.2 else -1,
-                                 timeout=rng.choice([0.5, 1.0, 2.0]) if rng.random() < 0.4 else FOREVER))
+                                 timeout=rng.choice([0.5, 1.0, 2.0]) if rng.random() < (0.4 if not heavy else 0.8) else FOREVER))
                 r += 1
             callers.append(dict(kind='call', reqs=reqs))
     return callers, r
@@ -88,12 +91,13 @@ def gen_case(rng: random.Random, tier: str, bias: str = ''):
     if bias == 'start' or rng.random() < 0.35:
         fail = list(rng.choice(ws))
     nsv = tsize(tree)
-    w1, r = gen_workload(rng, 0, nsv, big)
-    w2, r = gen_workload(rng, r, nsv, big)
-    early = rng.choice([0.0, 0.03, 0.08, 0.15])
+    heavy = bias == 'residual' or rng.random() < 0.3
+    w1, r = gen_workload(rng, 0, nsv, big, heavy)
+    w2, r = gen_workload(rng, r, nsv, big, heavy and rng.random() < 0.5)
+    early = rng.choice([0.0, 0.03, 0.08, 0.15]) if not heavy else rng.choice([0.08, 0.15, 0.3])
     ch = rng.choice([('random', early), ('random', early), ('sticky', 0.2, early), ('sticky', 0.05, early),
                      ('pct', 2, 800, early), ('pct', 3, 800, early)])
-    return dict(tree=tree, fail=fail, cap=rng.choice([1, 2, 4, 8]), sessions=[w1, w2], nreq=r,
+    return dict(tree=tree, fail=fail, cap=rng.choice([1, 2, 4, 8] if not heavy else [4, 8]), sessions=[w1, w2], nreq=r,
                 flatten=rng.random() < 0.5, chooser=list(ch), seed=rng.randrange(1 << 30))
 
 
@@ -237,6 +241,7 @@ def number_server(tree, srv):
     N.chan(srv._q_out)
     label(tree, 0, [srv.servlet], [], N)
     N.node(srv._gather_thread, (1000, 1))
+    N.keep_gather = srv._gather_thread
     if srv._onboard_thread is not None:
         N.chan(srv._input_buffer)
         N.node(srv._onboard_thread, (1000, 0))
@@ -469,7 +474,19 @@ def run_case(case):
         sessions.append(dict(events=translate(rawk, sess['N'], sess['main_id']), final=sess['final'],
                              ledger=sess['ledger'] if sess['ledger'] is not None else 0,
                              stuck=sess['final'] == 0 and isinstance(e, detsched.Deadlock) and e.args and e.args[0] != 'max_steps'))
+    for k, (sess, out) in enumerate(zip(st['sessions'], sessions)):
+        g = sess['N'].t2n[id(sess['N'].keep_gather)]
+        inj = got = 0
+        for e_ in out['events']:
+            if e_.startswith('m'):
+                break
+            if e_ == 'inject':
+                inj += 1
+            elif e_ == f'get {g} 1 0':
+                got += 1
+        out['residual'] = inj - got
     res['sessions'] = sessions
+    res['residual'] = [s_['residual'] for s_ in sessions]
     res['events'] = [s_['events'] for s_ in sessions]
     res['n_events'] = sum(len(s_['events']) for s_ in sessions)
     return res
